@@ -356,6 +356,42 @@ outer:
 			}
 		}
 	}
+	// extra: sequences of state-changing steps under asm
+	var seq []any
+	for _, js := range mutatorSeq {
+		seq = append(seq, mustJSON(js))
+	}
+	for _, fn := range []string{"asm", implicit} {
+		for ar := 3; ar <= c.Pick(3, 4); ar++ {
+			idx := make([]int, ar)
+			for {
+				if c.Mine(caseIdx) {
+					args := make([]any, ar)
+					for k, i := range idx {
+						args[k] = seq[i]
+					}
+					judge(fn, args)
+					e.cnt["mutator_sequences"]++
+					if judged++; judged%64 == 0 && c.Expired("C20 sequences") {
+						break
+					}
+				}
+				caseIdx++
+				k := ar - 1
+				for k >= 0 {
+					idx[k]++
+					if idx[k] < len(seq) {
+						break
+					}
+					idx[k] = 0
+					k--
+				}
+				if k < 0 {
+					break
+				}
+			}
+		}
+	}
 	for k, v := range e.cnt {
 		c.Add(k, v)
 	}
